@@ -19,7 +19,8 @@ LEVEL = 'other'
 TECHNIQUE = 'cfg truth-table enumeration + call-graph who-may-call + cross-configuration term comparison (exact and real-field normal forms) over rustc MIR'
 EXPLANATION = ('Decides exactly-one-backend selection for every feasible cfg assignment, absence of fused operations outside mul_add, bit-identical result terms across '
                'CPU feature sets (with Rust\'s no-contraction guarantee this is the 0-bit clause), and equality of the real function and of all guards between each SIMD backend '
-               'and scalar-math, so differences are confined to re-association rounding.  The numeric size of that slack is not decided.')
+               'and scalar-math, so differences are confined to re-association rounding (the SSE2 slerp is compared with its sine polynomial read as sin, certified within 2e-6 by C12).  '
+               'The numeric size of that slack is not decided.')
 LEVEL_NOTE = 'Decides structural equality across builds, not the magnitude of re-association slack. Trusted: rustc MIR, intrinsic table, Rust performs no FP contraction / re-association.'
 
 SIMD_TYPES = ('Vec3A', 'Vec4', 'Quat', 'Mat2', 'Mat3A', 'Mat4', 'Affine2', 'Affine3A', 'BVec3A', 'BVec4A')
